@@ -186,8 +186,16 @@ func instrumentTree(dir, verifsimSrc string, wrapExpr bool) (*InstrumentReport, 
 		// integer literals of the library: thresholds live among them (64, 256,
 		// 1024, ...). The generator places some sizes just below/at/above each.
 		ast.Inspect(f, func(n ast.Node) bool {
-			if bl, ok := n.(*ast.BasicLit); ok && bl.Kind == token.INT {
-				if v, err := strconv.ParseInt(bl.Value, 0, 64); err == nil && v >= 3 && v <= 20000 {
+			switch x := n.(type) {
+			case *ast.BasicLit:
+				if x.Kind == token.INT {
+					if v, err := strconv.ParseInt(x.Value, 0, 64); err == nil && v >= 3 && v <= 20000 {
+						constSet[int(v)] = true
+					}
+				}
+			case *ast.BinaryExpr:
+				// constant expressions over integer literals: 1 << 16, 4 * 1024, ...
+				if v, ok := evalIntExpr(x); ok && v >= 3 && v <= 1<<22 {
 					constSet[int(v)] = true
 				}
 			}
@@ -566,6 +574,46 @@ func singleValueContext(c *ast.CallExpr, parents map[ast.Node]ast.Node) bool {
 		return p.Fun != c && (len(p.Args) > 1 || len(p.Args) == 1)
 	}
 	return true
+}
+
+// evalIntExpr folds an expression built from integer literals with + - * / << and
+// parentheses; ok=false for anything else.
+func evalIntExpr(e ast.Expr) (int64, bool) {
+	switch x := e.(type) {
+	case *ast.BasicLit:
+		if x.Kind != token.INT {
+			return 0, false
+		}
+		v, err := strconv.ParseInt(x.Value, 0, 64)
+		return v, err == nil
+	case *ast.ParenExpr:
+		return evalIntExpr(x.X)
+	case *ast.BinaryExpr:
+		a, ok1 := evalIntExpr(x.X)
+		b, ok2 := evalIntExpr(x.Y)
+		if !ok1 || !ok2 {
+			return 0, false
+		}
+		switch x.Op {
+		case token.ADD:
+			return a + b, true
+		case token.SUB:
+			return a - b, true
+		case token.MUL:
+			return a * b, true
+		case token.QUO:
+			if b == 0 {
+				return 0, false
+			}
+			return a / b, true
+		case token.SHL:
+			if b < 0 || b > 40 {
+				return 0, false
+			}
+			return a << uint(b), true
+		}
+	}
+	return 0, false
 }
 
 func isGenerated(f *ast.File) bool { return false }
